@@ -7181,6 +7181,21 @@ let w_load_entities d s =
            | None -> None)
         | None -> None)
 
+(** val nodupb : nat list -> bool **)
+
+let rec nodupb = function
+| [] -> true
+| x :: r -> (&&) (negb (existsb (Nat.eqb x) r)) (nodupb r)
+
+(** val alive_okb : w -> bool **)
+
+let alive_okb s =
+  (&&)
+    (forallb (fun i ->
+      match nth_error s.w_pool.pe i with
+      | Some e -> Nat.eqb (fst e) i
+      | None -> false) (alive_ids s)) (nodupb (alive_ids s))
+
 (** val final_state : bool -> w -> z list list -> w **)
 
 let rec final_state debug s = function
@@ -7207,7 +7222,7 @@ let dumpload_world = function
               in
               let s = final_state c.sc_debug (init_world c) (skipn kk ops) in
               (match w_load_entities (w_dump_entities s) tgt with
-               | Some s' -> dump s'
+               | Some s' -> (if alive_okb s then Zpos XH else Z0) :: (dump s')
                | None -> (Zneg (XI XH)) :: [])
             | None -> (Zneg (XO XH)) :: [])
          | _ :: _ -> (Zneg (XO XH)) :: [])))
